@@ -8,6 +8,14 @@ import (
 )
 
 func (a *analysis) mark(e *entity, flags int) {
+	if a.cur != nil && a.cur != e {
+		m := a.edges[a.cur]
+		if m == nil {
+			m = map[*entity]bool{}
+			a.edges[a.cur] = m
+		}
+		m[e] = true
+	}
 	if e.flags|flags != e.flags {
 		e.flags |= flags
 		a.changed = true
